@@ -373,23 +373,66 @@ func ruleCommitRule(c *eng.Ctx) {
 				// latestOffsets elements are stored only from replica.getLatestOffset() while ranging p.isr
 				arr := mc.Call.Args[0]
 				okSrc, nst := true, 0
-				if ms, ok := arr.(*ssa.MakeSlice); ok {
-					c.Check(eng.Len(eng.Load(isr, nil))(ms.Len), "one slot per in-sync replica", c.Pos(ms), "latestOffsets has len(p.isr) slots", "latestOffsets is not sized by the in-sync set")
-					for _, r := range *ms.Referrers() {
-						if ia, ok := r.(*ssa.IndexAddr); ok {
-							for _, rr := range *ia.Referrers() {
-								if st, ok := rr.(*ssa.Store); ok {
-									nst++
-									if !eng.Call(-1, "server.replica.getLatestOffset")(st.Val) {
-										okSrc = false
+				// the slice is either filled slot by slot (make([]int64, len(p.isr)); s[i] = …) or grown by append from
+				// an empty one (make([]int64, 0, n); s = append(s, …)) — in both forms every element is a replica's
+				// reported offset and there is one per in-sync replica
+				var walk func(v ssa.Value, depth int)
+				seen := map[ssa.Value]bool{}
+				walk = func(v ssa.Value, depth int) {
+					if seen[v] || depth > 8 {
+						return
+					}
+					seen[v] = true
+					switch x := v.(type) {
+					case *ssa.Phi:
+						for _, e := range x.Edges {
+							walk(e, depth+1)
+						}
+					case *ssa.Call:
+						b, isB := x.Call.Value.(*ssa.Builtin)
+						if !isB || b.Name() != "append" || len(x.Call.Args) != 2 {
+							okSrc = false
+							return
+						}
+						inISRLoop := false
+						for _, ml := range eng.MapLoops(fn) {
+							if ml.Body[x.Block()] && eng.Load(isr, nil)(ml.Range.X) {
+								inISRLoop = true
+							}
+						}
+						if !inISRLoop {
+							okSrc = false
+						}
+						for _, el := range variadicElems(x.Call.Args[1]) {
+							nst++
+							if !eng.Call(-1, "server.replica.getLatestOffset")(el) {
+								okSrc = false
+							}
+						}
+						walk(x.Call.Args[0], depth+1)
+					case *ssa.MakeSlice:
+						if n, isC := eng.ConstVal(x.Len); isC && n == 0 {
+							c.OK("one slot per in-sync replica", c.Pos(x), "latestOffsets starts empty and grows by one element per in-sync replica")
+						} else {
+							c.Check(eng.Len(eng.Load(isr, nil))(x.Len), "one slot per in-sync replica", c.Pos(x), "latestOffsets has len(p.isr) slots", "latestOffsets is not sized by the in-sync set")
+						}
+						for _, r := range *x.Referrers() {
+							if ia, ok := r.(*ssa.IndexAddr); ok {
+								for _, rr := range *ia.Referrers() {
+									if st, ok := rr.(*ssa.Store); ok {
+										nst++
+										if !eng.Call(-1, "server.replica.getLatestOffset")(st.Val) {
+											okSrc = false
+										}
 									}
 								}
 							}
 						}
+					default:
+						okSrc = false
 					}
-				} else {
-					okSrc = false
 				}
+				walk(arr, 0)
 				c.Check(okSrc && nst > 0, "latest offsets come from the in-sync replicas", c.Pos(mc), "every slot is filled from replica.getLatestOffset()", "latestOffsets is filled from something other than the in-sync replicas' reported offsets")
 			}
 			// predicate closure
@@ -427,7 +470,12 @@ func ruleCommitRule(c *eng.Ctx) {
 					continue
 				}
 				sameElem := func(v ssa.Value) bool { x := indexOfLoad(v); return x != nil && x.X == ia.X && x.Index == ia.Index }
-				smaller := eng.CmpEdges(fn, sameElem, func(v ssa.Value) bool { _, isPhi := v.(*ssa.Phi); return isPhi }, eng.LT)
+				isPhi := func(v ssa.Value) bool { _, ok := v.(*ssa.Phi); return ok }
+				sameIdx := func(v ssa.Value) bool { return v == ia.Index }
+				// the element is smaller than the minimum so far — or it is the first one, which starts the minimum
+				smaller := eng.EdgesWhere(fn, func(a eng.AtomView) bool {
+					return a.RelHolds(sameElem, isPhi, eng.LT) || a.RelHolds(sameIdx, eng.IntConst(0), eng.EQ)
+				})
 				pred := ph.Block().Preds[i]
 				direct := false
 				for _, se := range smaller {
